@@ -259,6 +259,27 @@ package dag
 //@   prop C14
 //@   call (PayloadStore).writePayload #1 requires [event-saved-first-in-the-same-tx]
 //@        did(call (*state).saveEvent #1) && isNilIface(ret(call (*state).saveEvent #1)) && arg(call (*state).saveEvent #1, 1) == tx && arg(1) == tx
+//@   ensures [every-accepted-payload-has-its-event-saved] isNilIface(result) ==> did(call (*state).saveEvent #1) && isNilIface(ret(call (*state).saveEvent #1))
+//@        && same(arg(call (*state).saveEvent #1, 2), event) && did(call (PayloadStore).writePayload #1) && isNilIface(ret(call (PayloadStore).writePayload #1))
+
+// After a committed payload write the subscribers are notified of exactly this event - unconditionally.
+//@ func (*state).WritePayload$2
+//@   prop C14
+//@   ensures [always-notified-after-commit] did(call (*state).notify #1) && same(arg(call (*state).notify #1, 1), event)
+
+// After a restart every stored event is offered again; the ones that fail and still have retry budget
+// (retries < maxRetries) are handed to the retry loop.
+//@ func (go-stoabs.Reader).Iterate
+//@   trusted
+//@   summary once
+//@ func (*notifier).Run
+//@   prop C14
+//@   requires !isNilIface(p.db)
+//@   loop 1 invariant $i == 0 || isNilIface(ret(call (*notifier).notifyNow #1)) || !(readyToRetry[$i-1].Retries < maxRetries)
+//@        || (did(call append #1) && len(arg(call append #1, 1)) == 1 && same(arg(call append #1, 1)[0], readyToRetry[$i-1]))
+//@   loop 2 invariant true
+//@   call (*notifier).notifyNow #1 requires [every-stored-event-is-offered-again] same(arg(1), readyToRetry[$i-1])
+//@   call (*notifier).retry #1 requires [failed-events-enter-the-retry-loop] same(arg(1), failedAtStartup[$i-1])
 
 // ---- C14: the notifier: an event leaves the store only when its receiver finished it ----
 
@@ -319,6 +340,7 @@ package dag
 // which is what keeps the retry loop going; a fatal error pushes the retry count to the maximum.
 //@ func (*notifier).notifyNow
 //@   prop C14
+//@   assume-benign
 //@   call (*notifier).Finished #1 requires [only-when-the-receiver-finished-the-event] did(call .receiver #1) && isNilIface(ret(call .receiver #1).1) && ret(call .receiver #1).0 == true
 //@        && arg(1) == dbEvent.Hash && same(arg(call .receiver #1, 0), *dbEvent)
 //@   ensures [unfinished-is-an-error] did(call .receiver #1) && (!isNilIface(ret(call .receiver #1).1) || ret(call .receiver #1).0 == false) ==> !isNilIface(result)
